@@ -142,7 +142,8 @@ impl<'bundle> WriteValue<'bundle> for ast::InlineExpression<&'bundle str> {
             } => write!(w, "-{}", id.name),
             Self::FunctionReference { id, .. } => write!(w, "{}()", id.name),
             Self::VariableReference { id } => write!(w, "${}", id.name),
-            _ => unreachable!(),
+            Self::StringLiteral { value } | Self::NumberLiteral { value } => w.write_str(value),
+            Self::Placeable { expression } => expression.write_error(w),
         }
     }
 }
